@@ -112,6 +112,11 @@ const PROFILES: &[Profile] = &[
     prof("reserve", "map", "reserve"),
     prof("iter", "map", "iter"),
     prof("xback", "map", "xback"),
+    prof("clone", "map", "clone"),
+    // inconsistent Hash / Eq (C05): answers are pseudo-random functions of the call number
+    prof("broken-hash", "map", "mixed"),
+    prof("broken-eq", "map", "mixed"),
+    prof("broken-both", "map", "mixed"),
     prof("par", "par", "par"),
     prof("serde", "serde", "serde"),
     prof("table", "table", "table"),
@@ -197,6 +202,12 @@ fn make_base(prof: &Profile, seed: u64, i: usize, real: Option<&mut dyn Write>) 
     let mut runner = make_runner(prof.coll, drop, lay);
     let id = format!("{}-{}-{}", prof.name, seed, i);
     let mut pre = vec![format!("env pred={}", rng.below(1 << 30))];
+    match prof.name {
+        "broken-hash" => pre.push(format!("env hash=mix:{}", rng.below(1 << 30))),
+        "broken-eq" => pre.push(format!("env eq=mix:{}", rng.below(1 << 30))),
+        "broken-both" => pre.push(format!("env hash=mix:{} eq=mix:{}", rng.below(1 << 30), rng.below(1 << 30))),
+        _ => {}
+    }
     let plan = gen::make_plan(kind, universe, &mut rng);
     let mut pl = String::from("plan");
     for (k, h) in &plan {
